@@ -29,7 +29,7 @@ REQUIRED = ("definitions_probed", "cache_hits_observed", "cache_rewrites_observe
             "bytecode_on_definitions", "bytecode_off_definitions", "earlier_classes_reprobed", "option_only_switches")
 MIN_NONTRIVIAL = 20
 RULE = {
-    "quick": "8 shards x 8 histories of 4-7 steps over a pool of 8 designed + 4 generated variants of one same-named class (each define in a real "
+    "quick": "8 shards x 8 histories of 4-7 steps over a pool of 12 designed + 4 generated variants of one same-named class (each define in a real "
              "child process, several defines per process when 'same process'). Non-trivial = a define step that follows a different variant or a "
              "tamper action; distinct = (previous variant kind -> variant kind, process mode, bytecode, tamper, cache hit/rewrite).",
     "thorough": "16 shards x 90 histories of 4-9 steps, 16 generated variants per shard.",
@@ -68,12 +68,18 @@ def designed_variants(rng):
     out.append(V("i1i2-noann", fam_of([I("a", 1), I("b", 2)]), {"annotate": False}, rng))
     out.append(V("i1i2-nogen", fam_of([I("a", 1), I("b", 2)]), {"generate_for_pack": False, "generate_for_unpack": False}, rng))
     out.append(V("i2i1-unpackonly", fam_of([I("a", 2), I("b", 1)]), {"generate_for_pack": False}, rng))
+    out.append(V("i1i2-unpackonly", fam_of([I("a", 1), I("b", 2)]), {"generate_for_pack": False}, rng))
+    out.append(V("i2i1-packonly", fam_of([I("a", 2), I("b", 1)]), {"generate_for_unpack": False}, rng))
+    out.append(V("i1i2-packonly", fam_of([I("a", 1), I("b", 2)]), {"generate_for_unpack": False}, rng))
     for v in out:
         v.kind = "designed"
-    out[0].twin = "i2i1"
-    out[1].twin = "i1i2"
-    out[2].twin = "d1i2"
-    out[3].twin = "i1d2"
+    twins = {"i1i2": "i2i1", "i1d2": "d1i2", "i2i1-unpackonly": "i1i2-unpackonly", "i2i1-packonly": "i1i2-packonly"}
+    for a, b in twins.items():
+        for v in out:
+            if v.tag == a:
+                v.twin = b
+            if v.tag == b:
+                v.twin = a
     return out
 
 
